@@ -23,6 +23,10 @@ type c01wpath struct {
 	Filters   []string `json:"initial_filters"`
 	Events    []string `json:"events"` // sub:<f> / unsub:<f>
 	OnePacket bool     `json:"initial_filters_in_one_subscribe_packet"`
+	// Env is something that happens around the subscribed session before the publishes and must not cost it a delivery:
+	// "peer-update" (every node is told, as after a change of a peer's advertised address, that each other node joined),
+	// "same-client-id-in-other-tenant" (a client of another mount point connects with the session's client identifier)
+	Env string `json:"environment_event,omitempty"`
 }
 
 var c01wFilters = []string{"a", "a/b", "+", "+/b", "a/+", "#", "a/#", "a/b/#", "+/+", "b/#"}
@@ -32,12 +36,18 @@ func c01wpaths() []c01wpath {
 	var out []c01wpath
 	for _, n := range []int{1, 2} {
 		for _, f1 := range c01wFilters {
-			out = append(out, c01wpath{n, []string{f1}, nil, false})
+			out = append(out, c01wpath{n, []string{f1}, nil, false, ""})
+			out = append(out, c01wpath{n, []string{f1}, nil, false, "same-client-id-in-other-tenant"})
+			if n == 2 {
+				out = append(out, c01wpath{n, []string{f1}, nil, false, "peer-update"})
+			}
 			for _, f2 := range c01wFilters {
 				if f1 != f2 {
-					out = append(out, c01wpath{n, []string{f1, f2}, nil, false})
+					out = append(out, c01wpath{n, []string{f1, f2}, nil, false, ""})
 					if n == 1 {
-						out = append(out, c01wpath{n, []string{f1, f2}, nil, true})
+						out = append(out, c01wpath{n, []string{f1, f2}, nil, true, ""})
+					} else {
+						out = append(out, c01wpath{n, []string{f1, f2}, nil, false, "peer-update"})
 					}
 				}
 			}
@@ -53,7 +63,13 @@ func c01wpaths() []c01wpath {
 		var rec func(cur []string)
 		rec = func(cur []string) {
 			if len(cur) >= 2 {
-				out = append(out, c01wpath{n, nil, append([]string{}, cur...), false})
+				out = append(out, c01wpath{n, nil, append([]string{}, cur...), false, ""})
+				if len(cur) == 2 {
+					out = append(out, c01wpath{n, nil, append([]string{}, cur...), false, "same-client-id-in-other-tenant"})
+					if n == 2 {
+						out = append(out, c01wpath{n, nil, append([]string{}, cur...), false, "peer-update"})
+					}
+				}
 			}
 			if len(cur) == depth {
 				return
@@ -121,6 +137,21 @@ func TestC01Wire(t *testing.T) {
 					}
 					w.Step()
 					Observe(w, rep)
+				}
+				switch p.Env {
+				case "peer-update":
+					w.JoinNotices()
+					w.Step()
+				case "same-client-id-in-other-tenant":
+					for k := range w.Nodes {
+						o := w.NewClient(fmt.Sprintf("other-tenant-%d", k), k+1, AckAll)
+						o.Connect(ConnectOpts{ClientID: "s1", KeepAlive: 600, User: "mp:elsewhere"})
+						w.Step()
+					}
+				}
+				if s1.BrokerClosed() {
+					viol("c01-wire-session-ended", "after %q the broker ended the subscribed session", p.Env)
+					return
 				}
 				pub := w.NewClient("pub", p.Nodes, AckAll)
 				pub.Connect(ConnectOpts{ClientID: "pub", KeepAlive: 600})
@@ -219,6 +250,8 @@ func c07wpaths() []c07wpath {
 	for _, f := range []string{"a", "a/b", "+/b", "#", "a/#"} {
 		evs = append(evs, "sub:"+f)
 	}
+	// a retained will (with a payload, or empty: it clears the topic) published because its client's connection dropped
+	evs = append(evs, "will:a/b:r:x", "will:a/b:r:0")
 	// several filters in one SUBSCRIBE packet (each is a subscription of its own), incl. one matching nothing
 	for _, f := range []string{"zz/y,a/b", "a/b,zz/y", "a,+/b", "zz/y,#", "a/#,a/b"} {
 		evs = append(evs, "sub:"+f)
@@ -273,13 +306,25 @@ func TestC07Wire(t *testing.T) {
 					parts := strings.Split(e, ":")
 					e0, l0 := len(early.Received()), len(late.Received())
 					switch parts[0] {
-					case "pub":
+					case "pub", "will":
 						payload := parts[3] + fmt.Sprint(k)
 						if parts[3] == "0" {
 							payload = ""
 						}
-						pub.Publish(parts[1], payload, 0, parts[2] == "r", 0)
-						w.Step()
+						if parts[0] == "will" {
+							wc := w.NewClient(fmt.Sprintf("will%d", k), 1, AckAll)
+							if wc.Connect(ConnectOpts{ClientID: wc.Name, KeepAlive: 600, WillTopic: parts[1], WillMsg: payload, WillRetain: parts[2] == "r"}) != 0 {
+								rep.HarnessError("connect with will failed")
+								return
+							}
+							w.Step()
+							e0, l0 = len(early.Received()), len(late.Received())
+							wc.Drop()
+							w.Step()
+						} else {
+							pub.Publish(parts[1], payload, 0, parts[2] == "r", 0)
+							w.Step()
+						}
 						if parts[2] == "r" {
 							if payload == "" {
 								delete(retained, parts[1])
@@ -370,7 +415,7 @@ func TestC07Wire(t *testing.T) {
 		},
 		func(i int) any { return paths[i] },
 		func(rep *vk.Report) {
-			rep.Rule = "paths = event sequences over publish(topic a|a/b, retain or not, payload x|y|empty) and subscribe(late, a|a/b|+/b|#|a/#) ending in a subscribe, on 1 node and with the late subscriber on a second node; the packets the late subscriber reads during the subscribe step must be SUBACK followed by exactly one retain-flagged PUBLISH per matching topic with a non-empty last retained payload; live copies carry no retain flag; non-trivial = paths with at least one expected replay"
+			rep.Rule = "paths = event sequences over publish(topic a|a/b, retain or not, payload x|y|empty), retained will of a dropped connection (payload x|empty) and subscribe(late, a|a/b|+/b|#|a/#) ending in a subscribe, on 1 node and with the late subscriber on a second node; the packets the late subscriber reads during the subscribe step must be SUBACK followed by exactly one retain-flagged PUBLISH per matching topic with a non-empty last retained payload; live copies carry no retain flag; non-trivial = paths with at least one expected replay"
 			rep.Floor("paths_with_replay", 50, rep.Nontrivial)
 		})
 }
@@ -387,7 +432,7 @@ type c16wpath struct {
 
 func c16wpaths() []c16wpath {
 	var out []c16wpath
-	cands := [][2]string{{"alice", "pw-alice"}, {"bob", "pw-bob"}, {"carol", "pw-carol"}, {"alice", "pw-bob"}, {"alice", ""}, {"", "pw-alice"}, {"", ""}, {"mallory", "x"}, {"pw-alice", "alice"}, {"bob", "wrong"}}
+	cands := [][2]string{{"alice", "pw-alice"}, {"bob", "pw-bob"}, {"carol", "pw-carol"}, {"alice", "pw-bob"}, {"alice", ""}, {"", "pw-alice"}, {"", ""}, {"mallory", "x"}, {"pw-alice", "alice"}, {"bob", "wrong"}, {"eve", ""}, {"locked", ""}, {"eve", "x"}}
 	for _, store := range []string{"file", "static"} {
 		for _, n := range []int{1, 2} {
 			for _, c := range cands {
@@ -408,9 +453,9 @@ func TestC16Wire(t *testing.T) {
 	}
 	file := filepath.Join(scratch, fmt.Sprintf("cred-%d.csv", os.Getpid()))
 	fp := func(s string) string { return fmt.Sprintf("%x", sha256.Sum256([]byte(s))) }
-	os.WriteFile(file, []byte("carol:"+fp("pw-carol")+":\nalice:"+fp("pw-alice")+":m1\nbob:"+fp("pw-bob")+"\n"), 0o600)
+	os.WriteFile(file, []byte("carol:"+fp("pw-carol")+":\nalice:"+fp("pw-alice")+":m1\nbob:"+fp("pw-bob")+"\nlocked:\neve:"+fp("")+"\n"), 0o600)
 	defer os.Remove(file)
-	table := map[string][2]string{"alice": {"pw-alice", "m1"}, "bob": {"pw-bob", auth.DefaultMountPoint}, "carol": {"pw-carol", auth.DefaultMountPoint}}
+	table := map[string][2]string{"alice": {"pw-alice", "m1"}, "bob": {"pw-bob", auth.DefaultMountPoint}, "carol": {"pw-carol", auth.DefaultMountPoint}, "eve": {"", auth.DefaultMountPoint}}
 	RunPaths(t, "C16", "C16/wire", "TestC16Wire", len(paths), vk.Pick(6*time.Minute, 20*time.Minute),
 		func(t *testing.T, i int, rep *vk.Report) {
 			p := paths[i]
